@@ -64,7 +64,11 @@ func (s *vfSM) classifyRead(what string, key, v uint64, ok bool, now time.Time) 
 		if !ent.exp.IsZero() {
 			return vfV("C07", "hidden-before-expiry", "%s(%d) missed at %v although %d expires only at %v", what, key, now.Format("15:04:05.000000000"), ent.tok, ent.exp.Format("15:04:05.000000000"))
 		}
-		return vfV("C06", "spurious-loss", "%s(%d) missed although the reference map holds %d without TTL", what, key, ent.tok)
+		v := vfV("C06", "spurious-loss", "%s(%d) missed although the reference map holds %d without TTL", what, key, ent.tok)
+		if s.everTTL[key] {
+			v.Also = "C07" // an earlier write of the key carried a TTL: "the TTL alone never hides an item"
+		}
+		return v
 	}
 	return nil
 }
@@ -306,6 +310,7 @@ func (s *vfSM) modelSet(op *vfOp, ok bool, now time.Time, vs *[]*vfViol) {
 	var exp time.Time
 	if ttl > 0 {
 		exp = now.Add(ttl)
+		s.everTTL[op.Key] = true
 	}
 	ent, in := s.resident[op.Key]
 	upd := in && (!s.cfg.ShouldUpdate || vfShouldUpdate(tok, ent.tok))
@@ -537,6 +542,25 @@ func (s *vfSM) stepOne(vs *[]*vfViol) {
 	}
 	s.stepOneReal()
 	s.fifo = s.fifo[1:]
+	if bd := s.blockedDel; bd != nil && bd.isWait {
+		s.blockedDel = nil
+		s.fifo = append(s.fifo, vfPend{kind: pWait, wid: bd.wid})
+	} else if bd != nil {
+		s.blockedDel = nil
+		s.fifo = append(s.fifo, vfPend{kind: pDel, key: bd.key})
+		synctest.Wait()
+		select {
+		case <-bd.done:
+			s.deleted[bd.key] = true
+			for _, q := range s.fifo {
+				if q.kind == pNew && q.key == bd.key {
+					s.deleted[bd.key] = false // a Set of the key was issued after the Del started; be conservative
+				}
+			}
+		default:
+			s.add(vs, vfV("C08", "del-still-blocked", "Del(%d) is still blocked although the applier freed a slot", bd.key))
+		}
+	}
 	evs, v := s.absorb()
 	s.add(vs, v)
 	s.applyPend(p, evs, est, vs)
@@ -581,6 +605,16 @@ func (s *vfSM) sweepEvict(e vfCB, now time.Time, vs *[]*vfViol, midSweep bool) {
 
 func (s *vfSM) exec(op *vfOp) (vs []*vfViol) {
 	now := time.Now()
+	if s.blockedDel != nil {
+		switch op.Kind {
+		case "get", "getttl", "iter", "step", "advance", "wait", "quiesce":
+		default:
+			return // while a Del is blocked only reads and applier progress are generated
+		}
+		if (op.Kind == "wait" || op.Kind == "quiesce") && len(s.fifo) >= s.fifoCap() {
+			op.Kind, op.N = "step", 1
+		}
+	}
 	switch op.Kind {
 	case "set", "del", "get", "getttl", "iter":
 		s.calls++
@@ -595,7 +629,26 @@ func (s *vfSM) exec(op *vfOp) (vs []*vfViol) {
 		s.modelSet(op, ok, now, &vs)
 	case "del":
 		if len(s.fifo) >= s.fifoCap() {
-			return // would block the harness on the halted applier; not issued
+			// Del blocks until the applier frees a slot: issue it from its own goroutine
+			done := make(chan struct{})
+			go func() {
+				s.c.Del(op.Key)
+				close(done)
+			}()
+			synctest.Wait()
+			_, v := s.absorb()
+			s.add(&vs, v)
+			s.modelDel(op)
+			s.fifo = s.fifo[:len(s.fifo)-1] // the tombstone is not in the buffer yet
+			s.st.delOnFullBuffer++
+			select {
+			case <-done:
+				// returned although the buffer is full: nothing can have been enqueued
+			default:
+				s.deleted[op.Key] = false // not returned yet
+				s.blockedDel = &vfBlockedDel{key: op.Key, done: done}
+			}
+			break
 		}
 		s.c.Del(op.Key)
 		_, v := s.absorb()
@@ -661,22 +714,27 @@ func (s *vfSM) exec(op *vfOp) (vs []*vfViol) {
 		s.checkWaiters(&vs, "C06")
 	case "wait":
 		// the real Wait() in its own goroutine, then exactly the items in front of its marker
-		if len(s.fifo) >= s.fifoCap() {
-			return
-		}
 		if len(s.fifo) >= 2 {
 			s.st.waitWith2++
 		}
-		s.park()
+		if len(s.fifo) >= s.fifoCap() {
+			if s.blockedDel != nil {
+				return
+			}
+			s.parkBlocked()
+		} else {
+			s.park()
+		}
 		for len(s.fifo) > 0 {
 			s.stepOne(&vs)
 		}
 		s.checkWaiters(&vs, "C06")
 	case "park":
 		if len(s.fifo) >= s.fifoCap() {
-			return
+			s.parkBlocked()
+		} else {
+			s.park()
 		}
-		s.park()
 	case "advance":
 		time.Sleep(time.Duration(op.D))
 		return
@@ -714,6 +772,26 @@ func (s *vfSM) exec(op *vfOp) (vs []*vfViol) {
 	s.checkView(&vs)
 	s.checkDrained(&vs)
 	return
+}
+
+// parkBlocked: Wait() called while the buffer is full; its marker cannot be enqueued yet.
+func (s *vfSM) parkBlocked() {
+	id := s.nextWid
+	s.nextWid++
+	w := &vfWaiter{done: make(chan struct{})}
+	s.waiters[id] = w
+	go func() {
+		s.c.Wait()
+		close(w.done)
+	}()
+	synctest.Wait()
+	s.st.waitOnFullBuffer++
+	select {
+	case <-w.done:
+		// returned with writes still pending: checkWaiters reports it (release is false)
+	default:
+		s.blockedDel = &vfBlockedDel{isWait: true, wid: id, done: w.done}
+	}
 }
 
 func (s *vfSM) park() {
